@@ -207,6 +207,13 @@ def run_case(case, ctx):
                     n = len(sts)
                     ctx.check(np.asarray(r).shape == (n, n), "matrix_shape:" + name,
                               lambda: "%s -> shape %r" % (what, np.asarray(r).shape))
+    # psth: a public function that returns a profile on the recording of the trains
+    T = t1 - t0
+    for bs in (T, T / 4.0, T / 3.0, 0.375 * T):
+        h = ctx.call("psth", pyspike.psth, sts, bs)
+        msg = M.well_formed(h, t0, t1)
+        ctx.check(msg == "", "malformed_profile:psth",
+                  lambda: "psth(bin_size=%r) on [%r,%r]: %s" % (bs, t0, t1, msg))
     out = ctx.call("filter_by_spike_sync", pyspike.filter_by_spike_sync, sts,
                    case["threshold"], max_tau=case["max_tau"],
                    **({} if case["mrts"] is None else {"MRTS": case["mrts"]}))
